@@ -1259,7 +1259,7 @@ func (o outcome) String() string {
 // The mutants run in chunks, each chunk under its own hx.Guard deadline: a case with thousands of (slow) SM2
 // verifications on a loaded machine is not a hang, a single library call that does not return is.
 // Result: "" or "PANIC" / "HANG".
-func (o *outcome) runMutants(der []byte, kind, mode string, tseed uint64, verify func([]byte) bool) string {
+func (o *outcome) runMutants(der []byte, kind, signer, mode string, tseed uint64, verify func([]byte) bool) string {
 	g := regions(der)
 	if !g.ok {
 		o.detail = append(o.detail, "regions:unparsable")
@@ -1319,7 +1319,169 @@ func (o *outcome) runMutants(der []byte, kind, mode string, tseed uint64, verify
 	if shown == 0 {
 		o.detail = append(o.detail, firstAlg...)
 	}
+	// arithmetic changes of the signature VALUE (same object, signature re-encoded): none may verify
+	am := arithMutants(der, g, signer)
+	o.nMut += len(am)
+	var asurv []string
+	res, _ := hx.Guard(deadline, func() string {
+		for _, x := range am {
+			if verify(x.der) {
+				asurv = append(asurv, "arith:"+strings.ReplaceAll(x.name, ",", "|"))
+			}
+		}
+		return ""
+	})
+	if res != "" {
+		return res
+	}
+	o.sig += len(asurv)
+	if len(asurv) > 0 {
+		o.detail = append(asurv, o.detail...)
+	}
 	return ""
+}
+
+// ------------------------------------------------------------------------------------------------
+// arithmetic signature mutants: the signature value is decoded, changed as a number (or re-encoded in a
+// non-canonical way) and spliced back into the object with all lengths fixed up.
+
+type namedDER struct {
+	name string
+	der  []byte
+}
+
+func derLen(n int) []byte {
+	switch {
+	case n < 0x80:
+		return []byte{byte(n)}
+	case n < 0x100:
+		return []byte{0x81, byte(n)}
+	case n < 0x10000:
+		return []byte{0x82, byte(n >> 8), byte(n)}
+	}
+	return []byte{0x83, byte(n >> 16), byte(n >> 8), byte(n)}
+}
+
+func derTLV(tag byte, content []byte) []byte {
+	out := append([]byte{tag}, derLen(len(content))...)
+	return append(out, content...)
+}
+
+// two's complement INTEGER content of v, with pad extra sign octets in front (pad=0: minimal)
+func intContent(v *big.Int, pad int) []byte {
+	var b []byte
+	if v.Sign() >= 0 {
+		b = v.Bytes()
+		if len(b) == 0 || b[0]&0x80 != 0 {
+			b = append([]byte{0}, b...)
+		}
+		for i := 0; i < pad; i++ {
+			b = append([]byte{0}, b...)
+		}
+		return b
+	}
+	// negative: minimal n bytes with value + 2^(8n)
+	n := len(new(big.Int).Abs(v).Bytes()) + 1
+	t := new(big.Int).Add(v, new(big.Int).Lsh(big.NewInt(1), uint(8*n)))
+	b = t.Bytes()
+	for len(b) < n {
+		b = append([]byte{0xff}, b...)
+	}
+	for len(b) > 1 && b[0] == 0xff && b[1]&0x80 != 0 {
+		b = b[1:]
+	}
+	for i := 0; i < pad; i++ {
+		b = append([]byte{0xff}, b...)
+	}
+	return b
+}
+
+func rsSeq(r, s *big.Int, padR, padS int) []byte {
+	return derTLV(0x30, append(derTLV(0x02, intContent(r, padR)), derTLV(0x02, intContent(s, padS))...))
+}
+
+// the object with its signature BIT STRING replaced by sig (unused bits 0)
+func spliceSig(der []byte, g region, sig []byte) []byte {
+	body := append([]byte{}, der[g.tbs0:g.alg1]...)
+	body = append(body, derTLV(0x03, append([]byte{0}, sig...))...)
+	return derTLV(der[0], body)
+}
+
+func arithMutants(der []byte, g region, signer string) []namedDER {
+	if g.sig1-g.sig0-g.sigH < 2 {
+		return nil
+	}
+	sig := der[g.sig0+g.sigH+1 : g.sig1]
+	var out []namedDER
+	add := func(name string, newSig []byte) {
+		if !bytes.Equal(newSig, sig) {
+			out = append(out, namedDER{name, spliceSig(der, g, newSig)})
+		}
+	}
+	if signer == "rsa" {
+		pub, ok := signerOf(signer).Public().(*rsa.PublicKey)
+		if !ok {
+			return nil
+		}
+		c := new(big.Int).SetBytes(sig)
+		k := (pub.N.BitLen() + 7) / 8
+		cn := new(big.Int).Add(c, pub.N)
+		add("c+N", cn.Bytes())
+		if b := cn.Bytes(); len(b) <= k {
+			add("c+N:k", append(make([]byte, k-len(b)), b...))
+		}
+		add("0||c", append([]byte{0}, sig...))
+		add("c:minimal", c.Bytes())
+		add("N-c", new(big.Int).Sub(pub.N, c).Bytes())
+		return out
+	}
+	var N *big.Int
+	switch signer {
+	case "sm2":
+		N = sm2.P256Sm2().Params().N
+	case "p256":
+		N = elliptic.P256().Params().N
+	default:
+		return nil
+	}
+	var rs struct{ R, S *big.Int }
+	if rest, err := asn1.Unmarshal(sig, &rs); err != nil || len(rest) != 0 || rs.R == nil || rs.S == nil {
+		return nil
+	}
+	r, sv := rs.R, rs.S
+	plus := func(a *big.Int, k int64) *big.Int { return new(big.Int).Add(a, new(big.Int).Mul(N, big.NewInt(k))) }
+	add("r,s+N", rsSeq(r, plus(sv, 1), 0, 0))
+	add("r+N,s", rsSeq(plus(r, 1), sv, 0, 0))
+	add("r,s+2N", rsSeq(r, plus(sv, 2), 0, 0))
+	add("r+N,s+N", rsSeq(plus(r, 1), plus(sv, 1), 0, 0))
+	add("r+2N,s", rsSeq(plus(r, 2), sv, 0, 0))
+	add("r,s-N", rsSeq(r, plus(sv, -1), 0, 0))
+	add("r-N,s", rsSeq(plus(r, -1), sv, 0, 0))
+	add("s,r", rsSeq(sv, r, 0, 0))
+	add("-r,-s", rsSeq(new(big.Int).Neg(r), new(big.Int).Neg(sv), 0, 0))
+	if signer == "sm2" {
+		// for plain ECDSA (r, N-s) is the well-known second signature of the same message (a property of ECDSA
+		// itself, verified by crypto/ecdsa); SM2 has no such symmetry
+		add("r,N-s", rsSeq(r, new(big.Int).Sub(N, sv), 0, 0))
+		add("N-r,s", rsSeq(new(big.Int).Sub(N, r), sv, 0, 0))
+		add("N-r,N-s", rsSeq(new(big.Int).Sub(N, r), new(big.Int).Sub(N, sv), 0, 0))
+	}
+	// non-canonical encodings of the same numbers
+	add("00||r,s", rsSeq(r, sv, 1, 0))
+	add("r,00||s", rsSeq(r, sv, 0, 1))
+	add("00||r,00||s", rsSeq(r, sv, 1, 1))
+	add("0000||r,s", rsSeq(r, sv, 2, 0))
+	// long-form length octets for the inner SEQUENCE and for an INTEGER
+	ri, si := derTLV(0x02, intContent(r, 0)), derTLV(0x02, intContent(sv, 0))
+	body := append(append([]byte{}, ri...), si...)
+	add("seq-longlen", append([]byte{0x30, 0x81, byte(len(body))}, body...))
+	rc := intContent(r, 0)
+	ri2 := append([]byte{0x02, 0x81, byte(len(rc))}, rc...)
+	add("int-longlen", derTLV(0x30, append(append([]byte{}, ri2...), si...)))
+	// trailing garbage inside the BIT STRING and inside the SEQUENCE
+	add("rs||00", append(append([]byte{}, sig...), 0))
+	add("seq+extra-int", derTLV(0x30, append(append([]byte{}, body...), 0x02, 0x01, 0x00)))
+	return out
 }
 
 func diffDetail(d []string) []string {
@@ -1457,7 +1619,7 @@ func runT(f []string) string {
 	if res, _ := hx.Guard(deadline, func() string { return phase1(f, &o, &work) }); res == "PANIC" || res == "HANG" || work == nil {
 		return res
 	}
-	if res := o.runMutants(work.der, f[2], f[6], tseed, work.verify); res != "" {
+	if res := o.runMutants(work.der, f[2], f[3], f[6], tseed, work.verify); res != "" {
 		return res
 	}
 	return o.String()
